@@ -84,7 +84,7 @@ func decodeChecks(ctx *core.Ctx, pc *ProgCase, cc *CodecCell, i int, si int, st 
 			return
 		}
 		if only == nil {
-			ctx.Report(fmt.Sprintf("%s|decoder rejects the canonical encoding (%s)|%s|%s|%s", l, sfx, errWord(o.ErrText), progClass(pc.Prog.Name), optsInForce(pc.Prog)),
+			ctx.Report(fmt.Sprintf("%s|decoder rejects the canonical encoding (%s)|%s|%s|%s", l, sfx, errWord(o.ErrText), progClass(pc.Prog.Name), optsFor(pc.Prog, "int")),
 				fmt.Sprintf("program %s message %s: %s\nbytes %s\n%s", pc.Prog.Name, m.ID, o.ErrText, core.Trunc(hexOf(ref), 300), core.Trunc(pc.Text, 600)), rep)
 		} else if only(wire.KMatch) && si == 0 {
 			// every key carried by an enumerated message is in the table: a rejection is a dispatch failure
@@ -105,7 +105,7 @@ func decodeChecks(ctx *core.Ctx, pc *ProgCase, cc *CodecCell, i int, si int, st 
 			return
 		}
 		if only == nil || only(k) {
-			ctx.Report(fmt.Sprintf("%s|decoded value differs: %s %s|%s", l, d.Where(), d.Class, optsInForce(pc.Prog)),
+			ctx.Report(fmt.Sprintf("%s|decoded value differs: %s %s|%s", l, d.Where(), d.Class, optsFor(pc.Prog, d.Where()+" "+d.Class)),
 				fmt.Sprintf("program %s message %s (%s): %s\nbytes %s\ndecoded %s\n%s", pc.Prog.Name, m.ID, sfx, d.String(), core.Trunc(hexOf(ref), 300), core.Trunc(o.Raw, 400), core.Trunc(pc.Text, 600)), rep)
 		}
 		return
@@ -118,7 +118,7 @@ func decodeChecks(ctx *core.Ctx, pc *ProgCase, cc *CodecCell, i int, si int, st 
 		if o.Pos > len(ref) {
 			dir = "more"
 		}
-		ctx.Report(fmt.Sprintf("%s|decoder consumes %s bytes than the message has (%s)|%s|%s", l, dir, sfx, progClass(pc.Prog.Name), optsInForce(pc.Prog)),
+		ctx.Report(fmt.Sprintf("%s|decoder consumes %s bytes than the message has (%s)|%s|%s", l, dir, sfx, progClass(pc.Prog.Name), optsFor(pc.Prog, "int")),
 			fmt.Sprintf("program %s message %s: read position %d, message length %d\n%s", pc.Prog.Name, m.ID, o.Pos, len(ref), core.Trunc(pc.Text, 600)), rep)
 	}
 	if o.ReencErr != "" {
@@ -126,7 +126,7 @@ func decodeChecks(ctx *core.Ctx, pc *ProgCase, cc *CodecCell, i int, si int, st 
 			fmt.Sprintf("program %s message %s: %s", pc.Prog.Name, m.ID, o.ReencErr), rep)
 	} else if got, err := hex.DecodeString(o.Hex); err == nil {
 		if d := wireDiff(pc.Encs[i], got); d != "" {
-			ctx.Report(fmt.Sprintf("%s|re-encoding the decoded value does not reproduce the bytes: %s|%s", l, d, optsInForce(pc.Prog)),
+			ctx.Report(fmt.Sprintf("%s|re-encoding the decoded value does not reproduce the bytes: %s|%s", l, d, optsFor(pc.Prog, d)),
 				fmt.Sprintf("program %s message %s\nbytes     %s\nre-encode %s\n%s", pc.Prog.Name, m.ID, core.Trunc(hexOf(ref), 300), core.Trunc(o.Hex, 300), core.Trunc(pc.Text, 600)), rep)
 		}
 	}
@@ -221,7 +221,7 @@ func C03(ctx *core.Ctx) int {
 					if where == "" {
 						where = db
 					}
-					ctx.Report(fmt.Sprintf("encoders disagree|%s vs %s|%s|%s", ls[a], ls[b], where, optsInForce(pc.Prog)),
+					ctx.Report(fmt.Sprintf("encoders disagree|%s vs %s|%s|%s", ls[a], ls[b], where, optsFor(pc.Prog, where)),
 						fmt.Sprintf("program %s message %s\nvalue %s\n%-7s %s\n%-7s %s\n%s", pc.Prog.Name, m.ID, core.Trunc(pc.R.FormatValue(nil, pc.R.Root, m.Val), 300), ls[a], core.Trunc(encs[ls[a]], 300), ls[b], core.Trunc(encs[ls[b]], 300), core.Trunc(pc.Text, 600)),
 						map[string]any{"name": pc.Prog.Name, "message": m.ID, "text": pc.Text, "langs": []string{ls[a], ls[b]}})
 				}
@@ -252,7 +252,7 @@ func C03(ctx *core.Ctx) int {
 						if trees[dl[a]] != nil && trees[dl[b]] != nil {
 							where = treeDiffWhere(pc.R, pc.R.Root, trees[dl[a]], trees[dl[b]])
 						}
-						ctx.Report(fmt.Sprintf("decoders disagree on the same bytes|%s vs %s|%s|%s", dl[a], dl[b], where, optsInForce(pc.Prog)),
+						ctx.Report(fmt.Sprintf("decoders disagree on the same bytes|%s vs %s|%s|%s", dl[a], dl[b], where, optsFor(pc.Prog, where)),
 							fmt.Sprintf("program %s message %s bytes %s\n%-7s %s\n%-7s %s", pc.Prog.Name, m.ID, core.Trunc(hexOf(pc.Encs[i].Bytes), 200), dl[a], core.Trunc(dumps[dl[a]], 400), dl[b], core.Trunc(dumps[dl[b]], 400)),
 							map[string]any{"name": pc.Prog.Name, "message": m.ID, "text": pc.Text, "langs": []string{dl[a], dl[b]}})
 					}
@@ -500,7 +500,7 @@ func projection(ctx *core.Ctx, progs []*dsl.Program, kind wire.FKind, rule strin
 				st.distinct[o.Hex] = true
 				got, _ := hex.DecodeString(o.Hex)
 				if d := fieldDiff(pc.Encs[i], got, kind); d != "" {
-					ctx.Report(fmt.Sprintf("%s|%s|%s", l, d, optsInForce(pc.Prog)),
+					ctx.Report(fmt.Sprintf("%s|%s|%s", l, d, optsFor(pc.Prog, d)),
 						fmt.Sprintf("program %s message %s\nvalue     %s\nreference %s\n%-9s %s\n%s", pc.Prog.Name, m.ID, core.Trunc(rep["value"].(string), 300), core.Trunc(hexOf(pc.Encs[i].Bytes), 300), l, core.Trunc(o.Hex, 300), core.Trunc(pc.Text, 600)), rep)
 				}
 			} else if wallClockAnswer(o.ErrText) {
@@ -741,6 +741,9 @@ func matchPrograms() []*dsl.Program {
 	mk("big-keys-u16", dsl.Root("Msg", dsl.Sc("u16", "Kind"), dsl.Mt("Kind", "Body", dsl.K("Alpha", "255"), dsl.K("Beta", "256"), dsl.K("Gamma", "65535"))))
 	mk("big-keys-u8", dsl.Root("Msg", dsl.Sc("u8", "Kind"), dsl.Mt("Kind", "Body", dsl.K("Alpha", "127"), dsl.K("Beta", "128"), dsl.K("Gamma", "255"))))
 	mk("big-keys-u32", dsl.Root("Msg", dsl.Sc("u32", "Kind"), dsl.Mt("Kind", "Body", dsl.K("Alpha", "2147483647"), dsl.K("Beta", "2147483648"), dsl.K("Gamma", "4294967295"))))
+	mk("big-keys-u64", dsl.Root("Msg", dsl.Sc("u64", "Kind"), dsl.Mt("Kind", "Body", dsl.K("Alpha", "9223372036854775807"), dsl.K("Beta", "9223372036854775808"), dsl.K("Gamma", "18446744073709551615"))))
+	mk("big-keys-i64", dsl.Root("Msg", dsl.Sc("i64", "Kind"), dsl.Mt("Kind", "Body", dsl.K("Alpha", "9223372036854775807"), dsl.K("Beta", "4294967296"), dsl.K("Gamma", "1"))))
+	mk("leading-zero-keys", dsl.Root("Msg", dsl.Sc("u16", "Kind"), dsl.Mt("Kind", "Body", dsl.K("Alpha", "7"), dsl.K("Beta", "10"), dsl.K("Gamma", "100"))))
 	mk("string-list-6", dsl.Root("Msg", dsl.Ds("Kind"), dsl.Mt("Kind", "Body", dsl.K("Alpha", `"A"`, `"B"`, `"C"`, `"D"`, `"E"`, `"F"`), dsl.K("Beta", `"G"`), dsl.K("Empty", `"H"`))))
 	mk("zchar-key", dsl.Root("Msg", dsl.Zc(4, "Kind"), dsl.Mt("Kind", "Body", dsl.K("Alpha", `"AB"`), dsl.K("Beta", `"CDEF"`))))
 	mk("payload-then-fields", dsl.Root("Msg", dsl.Sc("u8", "Kind"), dsl.Mt("Kind", "Body", dsl.K("Alpha", "1"), dsl.K("Empty", "2"), dsl.K("Gamma", "3")), dsl.Sc("u32", "After"), dsl.Rep(dsl.Ds("Notes"))))
